@@ -2,8 +2,29 @@
 PROP = dict(
         module='kernel', pkg='device/video/console', pkgname='console', harness=['console/c19_test.go'],
         n=dict(quick=300, thorough=6000),
-        nontrivial=r'\| .*\d:[0-9a-f]',
-        rule='placeholder',
-        trusted=[], assumptions=[],
-        level_text='placeholder', level_note='placeholder',
+        nontrivial=r'^[tv][wfs] .*\| .*\d:[0-9a-f]',
+        rule='one evaluation = one trace line: a Write / Fill / Scroll (or SetFont, SetLogo, packColor, fbOffset, checksum) '
+             'call on the real VgaTextConsole / VesaFbConsole whose framebuffer lies inside a pattern-filled host buffer, '
+             'followed by a full diff of the host buffer; the Lean driver re-executes the call on the model and evaluates '
+             'the pointwise specification on the implementation\'s framebuffer; distinct = by hash of (op, diff); '
+             'non-trivial = a write/fill/scroll that changed at least one framebuffer cell or byte',
+        trusted=['in-package harness builds the consoles through DriverInit with mapRegionFn pointing into a Go byte slice '
+                 '(Go bounds checks make every out-of-range store a panic, observed as `panic`)',
+                 'SetLogo\'s pixel drawing and palette remapping are not modelled (palette is taken from the trace; the oracle '
+                 'only checks that the drawing stays inside the logo rows and off the padding)',
+                 'SetPaletteColor/replace16/replace24 are outside the property and not exercised'],
+        assumptions=['geometry domain of the theorems: grid of >= 1 cell, pitch >= width*bytesPerPixel, (height+1)*pitch+4 < 2^32, '
+                     'depth in {8,15,16,24,32}, font glyphs >= 1x1, 256-entry palette; text: cols*rows < 2^31',
+                     'SetLogo is called before SetFont (documented API contract)'],
+        level_text='Lean theorems for all geometries in the stated domain and all 32-bit arguments: text console write_frame, '
+                   'fill_clip, scroll_exact, no_oob; pixel console fill_clip, scroll_exact, padding/logo untouched, no_oob for '
+                   'Fill/Scroll (models with checked framebuffer access and 32-bit wrap-around arithmetic, specs pointwise in '
+                   'unbounded arithmetic). Tied to the Go code by regenerated constants/font metadata and a differential run '
+                   'with full framebuffer diffs, guard bytes and row padding.',
+        level_note='Partial: the in-grid pixel Write (glyph walk of write8/16/24) and the bit-level meaning of packColor16/24 are '
+                   'not proved; they are covered by the correspondence run and the write-frame / pack-color oracles only '
+                   '(theorems pix_write_frame_partial, pix_no_oob_partial, padding_untouched_partial say what is proved). '
+                   'Trusted: Lean kernel (+ propext, Classical.choice, Quot.sound), the theorem statements and Spec/Console.lean, '
+                   'the harness (correspondence is differential testing on generated inputs, not a proof about the Go code). '
+                   'D9, D10, D11 were confirmed by the oracle on the unrepaired tree and repaired in /repo.',
 )
